@@ -1,23 +1,69 @@
 package main
 
 import (
+	"encoding/json"
 	"fmt"
 	"math/rand"
 
 	"verif/harness/internal/vtrace"
 )
 
-func randomCfg(rng *rand.Rand, mode string) cfg {
+func randomCfg(rng *rand.Rand, clean bool) cfg {
 	c := defaultCfg()
 	c.EwlSize = []int{1, 2, 3, 100}[rng.Intn(4)]
 	c.BufLen = []int{1, 2, 3, 5, 100, 100}[rng.Intn(6)]
 	c.Queue = []int{0, 0, 1, 2}[rng.Intn(4)]
 	c.Level = []int{1, 2, 5}[rng.Intn(3)]
-	c.MaxSnaps = []int{1, 2}[rng.Intn(2)]
-	if mode == "nodefect" {
+	c.MaxSnaps = []int{2, 3}[rng.Intn(2)]
+	c.CpMod = []int{0, 0, 2, 3}[rng.Intn(4)]
+	if clean {
 		c.BufLen = 100
 	}
 	return c
+}
+
+const maxConcurrentJobs = 2 // <= smallest MaxSnaps used, so that no snapshot DB created by a batch of jobs is rotated out inside the batch
+
+func (d *driver) activeJobs() int {
+	n := 0
+	for _, j := range d.jobs {
+		if !j.done {
+			n++
+		}
+	}
+	return n
+}
+
+// enabled tells whether the schedule step can be executed now
+func (d *driver) enabled(o op) bool {
+	switch o.Op {
+	case "commit":
+		return len(d.chain)-d.nfin < 4
+	case "reapply":
+		return len(d.chain)-d.nfin < 4 && len(d.rolled[d.head().rid]) > 0
+	case "finalize":
+		if !d.canFinalize() {
+			return false
+		}
+		if d.s.c.CpMod != 0 && d.chain[d.nfin].nonce%uint64(d.s.c.CpMod) == 0 && d.activeJobs() >= maxConcurrentJobs {
+			return false
+		}
+		return true
+	case "rollback":
+		if !d.canRollback() {
+			return false
+		}
+		return !(d.clean && d.s.tsm.IsPruningBlocked())
+	case "enter":
+		return d.manual < 2
+	case "exit":
+		return d.manual > 0
+	case "snap", "cp":
+		return d.activeJobs() < maxConcurrentJobs
+	case "step", "lstep":
+		return len(d.s.g.parked()) > 0
+	}
+	return true
 }
 
 // record runs `traces` random histories of `n` steps each on fresh real stacks
@@ -28,26 +74,40 @@ func record(seed int64, traces, n int, out, mode string) {
 		return
 	}
 	rng := rand.New(rand.NewSource(seed))
-	steps := 0
+	steps, njobs, nclean := 0, 0, 0
+	kinds := vtrace.NewDistinct()
 	for t := 0; t < traces; t++ {
-		c := randomCfg(rng, mode)
+		clean := rng.Intn(2) == 0
+		if mode == "clean" {
+			clean = true
+		} else if mode == "dirty" {
+			clean = false
+		}
+		c := randomCfg(rng, clean)
 		d, err := newDriver(c, w)
 		if err != nil {
 			vtrace.Broken(err.Error())
 			return
 		}
+		d.clean = clean
+		if clean {
+			nclean++
+		}
+		withJobs := mode == "jobs" || (mode != "nojobs" && rng.Intn(3) != 0)
 		if err := d.genesis(c, genesisTxs(rng)); err != nil {
 			vtrace.Broken("genesis: " + err.Error())
 			return
 		}
 		for i := 0; i < n; i++ {
-			o := pick(d, rng, mode)
-			if err := d.do(o, rng); err != nil {
+			o := pick(d, rng, withJobs)
+			if err := d.doPicked(o, rng); err != nil {
 				vtrace.Broken(fmt.Sprintf("trace %d step %d %+v: %v", t, i, o, err))
 				return
 			}
+			kinds.Add(fmt.Sprintf("%s blk=%v jobs=%d buf=%d q=%d", o.Op, d.s.tsm.IsPruningBlocked(), d.activeJobs(), c.BufLen, c.Queue))
 			steps++
 		}
+		njobs += len(d.jobs)
 		if err := d.finish(); err != nil {
 			vtrace.Broken(err.Error())
 			return
@@ -59,37 +119,185 @@ func record(seed int64, traces, n int, out, mode string) {
 	vtrace.Stat("events", w.N)
 	vtrace.Stat("traces", traces)
 	vtrace.Stat("steps", steps)
+	vtrace.Stat("jobs", njobs)
+	vtrace.Stat("clean_traces", nclean)
+	vtrace.Stat("distinct", kinds.Len())
+}
+
+// doPicked executes a picked step; "step" releases a random parked goroutine
+func (d *driver) doPicked(o op, rng *rand.Rand) error {
+	if o.Op == "step" {
+		ps := d.s.g.parked()
+		return d.release(ps[rng.Intn(len(ps))])
+	}
+	if o.Op == "snap" || o.Op == "cp" {
+		return d.startJob(o.Op, rng.Intn(len(d.chain)))
+	}
+	return d.do(o, rng)
 }
 
 // pick chooses the next schedule step among the enabled ones
-func pick(d *driver, rng *rand.Rand, mode string) op {
+func pick(d *driver, rng *rand.Rand, withJobs bool) op {
 	for {
+		var o op
 		r := rng.Intn(100)
-		switch {
-		case r < 35:
-			if len(d.chain)-d.nfin >= 4 {
-				continue
-			}
-			if len(d.rolled[d.head().rid]) > 0 && rng.Intn(2) == 0 {
-				return op{Op: "reapply"}
-			}
-			return op{Op: "commit"}
-		case r < 60:
-			if d.canFinalize() {
-				return op{Op: "finalize"}
-			}
-		case r < 75:
-			if d.canRollback() && mode != "norollback" {
-				return op{Op: "rollback"}
-			}
-		case r < 85:
-			if d.manual < 2 && mode != "noblock" {
-				return op{Op: "enter"}
-			}
-		case r < 100:
-			if d.manual > 0 {
-				return op{Op: "exit"}
+		if withJobs && len(d.s.g.parked()) > 0 && rng.Intn(100) < 45 {
+			o = op{Op: "step"}
+		} else {
+			switch {
+			case r < 30:
+				o = op{Op: "commit"}
+				if len(d.rolled[d.head().rid]) > 0 && rng.Intn(2) == 0 {
+					o = op{Op: "reapply"}
+				}
+			case r < 55:
+				o = op{Op: "finalize"}
+			case r < 68:
+				o = op{Op: "rollback"}
+			case r < 76:
+				o = op{Op: "enter"}
+			case r < 88:
+				o = op{Op: "exit"}
+			case r < 94:
+				if !withJobs {
+					continue
+				}
+				o = op{Op: "snap"}
+			default:
+				if !withJobs {
+					continue
+				}
+				o = op{Op: "cp"}
 			}
 		}
+		if d.enabled(o) {
+			return o
+		}
 	}
+}
+
+// ---------------------------------------------------------------------------------------------
+// schedules: TLC behaviours of MC_StatePruning at the schedule level (action names + arguments; the
+// abstract node sets cannot be concretised) are replayed on the real stack, the driver choosing the
+// concrete transactions.  Steps that are not enabled on the real stack are skipped.  The recorded
+// trace is validated by Trace_StatePruning like a random one.
+
+type schedStep struct {
+	A  string                 `json:"a"`
+	In map[string]interface{} `json:"in"`
+}
+
+func schedules(path, out string, seed int64) {
+	lines, err := vtrace.ReadLines(path)
+	if err != nil {
+		vtrace.Broken(err.Error())
+		return
+	}
+	w, err := vtrace.NewWriter(out)
+	if err != nil {
+		vtrace.Broken(err.Error())
+		return
+	}
+	distinct := vtrace.NewDistinct()
+	steps, skipped := 0, 0
+	for bi, raw := range lines {
+		var b []schedStep
+		if err := json.Unmarshal(raw, &b); err != nil || len(b) == 0 || b[0].A != "New" {
+			vtrace.Broken(fmt.Sprintf("behaviour %d: bad record", bi))
+			return
+		}
+		rng := rand.New(rand.NewSource(seed*1000003 + int64(bi)))
+		c := defaultCfg()
+		c.BufLen = vtrace.Int(b[0].In["buf"])
+		c.Queue = vtrace.Int(b[0].In["q"])
+		c.MaxSnaps = vtrace.Int(b[0].In["snaps"])
+		c.CpMod = vtrace.Int(b[0].In["cpmod"])
+		c.EwlSize = []int{1, 2, 100}[rng.Intn(3)]
+		c.Level = []int{1, 2, 5}[rng.Intn(3)]
+		d, err := newDriver(c, w)
+		if err != nil {
+			vtrace.Broken(err.Error())
+			return
+		}
+		if err := d.genesis(c, genesisTxs(rng)); err != nil {
+			vtrace.Broken("genesis: " + err.Error())
+			return
+		}
+		sig := ""
+		for _, st := range b[1:] {
+			o, ok := d.mapStep(st)
+			if !ok || !d.enabled(o) {
+				skipped++
+				continue
+			}
+			var e error
+			switch o.Op {
+			case "lstep":
+				e = d.release(d.parkedLoop())
+			case "genq":
+				e = d.release(d.parkedJob(d.jobs[o.Idx-1]))
+			default:
+				e = d.do(o, rng)
+			}
+			if e != nil {
+				vtrace.Broken(fmt.Sprintf("behaviour %d step %+v: %v", bi, st, e))
+				return
+			}
+			sig += o.Op + fmt.Sprint(d.s.tsm.IsPruningBlocked()) + ","
+			steps++
+		}
+		distinct.Add(fmt.Sprint(c.BufLen, c.Queue, c.CpMod, sig))
+		if err := d.finish(); err != nil {
+			vtrace.Broken(err.Error())
+			return
+		}
+	}
+	if err := w.Close(); err != nil {
+		vtrace.Broken(err.Error())
+	}
+	vtrace.Stat("events", w.N)
+	vtrace.Stat("behaviours", len(lines))
+	vtrace.Stat("steps", steps)
+	vtrace.Stat("skipped", skipped)
+	vtrace.Stat("distinct", distinct.Len())
+}
+
+// mapStep translates one abstract action into a schedule step of the real stack
+func (d *driver) mapStep(st schedStep) (op, bool) {
+	switch st.A {
+	case "Commit":
+		if vtrace.Int(st.In["reapply"]) == 1 {
+			return op{Op: "reapply"}, true
+		}
+		return op{Op: "commit"}, true
+	case "Finalize":
+		return op{Op: "finalize"}, true
+	case "Rollback":
+		return op{Op: "rollback"}, true
+	case "Enter":
+		return op{Op: "enter"}, true
+	case "Exit":
+		return op{Op: "exit"}, true
+	case "SnapStart", "CpStart":
+		idx := vtrace.Int(st.In["idx"]) - 1
+		if idx < 0 || idx >= len(d.chain) {
+			return op{}, false
+		}
+		if st.A == "SnapStart" {
+			return op{Op: "snap", Idx: idx}, true
+		}
+		return op{Op: "cp", Idx: idx}, true
+	case "GEnq":
+		j := vtrace.Int(st.In["j"])
+		if j < 1 || j > len(d.jobs) || d.parkedJob(d.jobs[j-1]) == nil {
+			return op{}, false
+		}
+		return op{Op: "genq", Idx: j}, true
+	case "LStep":
+		if d.parkedLoop() == nil {
+			return op{}, false
+		}
+		return op{Op: "lstep"}, true
+	}
+	return op{}, false // LTake, GExit: happen by themselves on the real stack
 }
